@@ -4,6 +4,7 @@
 From Coq Require Import ZArith List Bool.
 From CP Require Import Core.Bytes Core.Result Prim.Int Base.Enum Base.Cost Reader.Reader.
 From CP Require Import Lemmas.IntLemmas Lemmas.EnumLemmas Lemmas.CostLemmas Lemmas.ReaderLemmas.
+From CP Require Import Text.Field Text.FieldCost Lemmas.FieldCostLemmas.
 Open Scope Z_scope.
 
 (* the only loop of the vector parsers runs at most once per byte present *)
@@ -34,3 +35,12 @@ Theorem C19_reader_terminates : forall (A : Type) (parse : bytes -> result (A * 
   forall chunks1 chunks2, concat (chunks1 ++ chunks2) = concat (map snd frames) ->
   status (run_reader A parse chunks1) = Running.
 Proof. intros A parse frames G c1 c2 E. exact (proj1 (reader_correct A parse frames G c1 c2 E)). Qed.
+
+(* the separator-list tokeniser of the text fields (header values, TXT policy records): at most seven steps per byte of the
+   text plus four, whatever the text - runs of separators, runs of blanks, empty items, no separator at all - ... *)
+Theorem C19_tokeniser_linear : forall s l, tokens_total_steps s l <= 7 * zlen l + 4.
+Proof. exact tokens_total_linear. Qed.
+
+(* ... and the fuel its caller provides (length of the text + 1) is never exhausted: it terminates on every text *)
+Theorem C19_tokeniser_terminates : forall s l, tokens s l <> Err OutOfFuel.
+Proof. exact tokens_never_out_of_fuel. Qed.
